@@ -822,6 +822,7 @@ func c19Stress(c *harness.Ctx) {
 	// per goroutine accounts, set up single-threaded through the real functions
 	type actor struct{ me, peer, far []byte }
 	actors := make([]actor, G)
+	var gasCreated func(fn string, provided, left uint64)
 	call := func(fnName string, snd, dst *world.Account, in *vmcommon.ContractCallInput) (*vmcommon.VMOutput, error) {
 		fn, err := sh.Container.Get(fnName)
 		if err != nil {
@@ -835,7 +836,27 @@ func c19Stress(c *harness.Ctx) {
 			d = dst
 		}
 		in.Function = fnName
-		return fn.ProcessBuiltinFunction(s, d, in)
+		out, err := fn.ProcessBuiltinFunction(s, d, in)
+		// whatever the interleaving with schedule changes, no execution ends with more gas than it
+		// was given (a cost read twice - once for the check, once for the charge - wraps here)
+		if err == nil && out != nil {
+			left := out.GasRemaining
+			for _, oa := range out.OutputAccounts {
+				if oa != nil {
+					for _, ot := range oa.OutputTransfers {
+						if left+ot.GasLimit < left {
+							left = ^uint64(0)
+						} else {
+							left += ot.GasLimit
+						}
+					}
+				}
+			}
+			if left > in.GasProvided && gasCreated != nil {
+				gasCreated(fnName, in.GasProvided, left)
+			}
+		}
+		return out, err
 	}
 	mkIn := func(caller, rcv []byte, gas uint64, args ...[]byte) *vmcommon.ContractCallInput {
 		return &vmcommon.ContractCallInput{VMInput: vmcommon.VMInput{CallerAddr: caller, Arguments: args, CallValue: new(big.Int), GasProvided: gas}, RecipientAddr: rcv}
@@ -890,6 +911,9 @@ func c19Stress(c *harness.Ctx) {
 		R.Violate(sig, what, nil)
 		vmu.Unlock()
 	}
+	gasCreated = func(fn string, provided, left uint64) {
+		report("C19:gas-created-under-reconfiguration:"+fn, fmt.Sprintf("%s was given %d gas and ended with %d (remaining + forwarded) while schedules were changing", fn, provided, left))
+	}
 	covers := make([]map[string]int64, G)
 	for g := 0; g < G; g++ {
 		covers[g] = map[string]int64{}
@@ -922,6 +946,11 @@ func c19Stress(c *harness.Ctx) {
 				seq++
 				t := tokens[rg.Intn(len(tokens))]
 				gas := uint64(1) << 50
+				if seq%4 == 3 {
+					// enough under the cheap schedule, too little under the expensive one: a call
+					// that checks against one and charges by the other would end above what it got
+					gas = 60000
+				}
 				switch rg.Intn(26) {
 				case 0:
 					call(FTransfer, me, peer, mkIn(a.me, a.peer, gas, t, gen.Big(1)))
